@@ -191,6 +191,14 @@ class CompleteWorkflowHandler(StabilizeHandler[CompleteWorkflow]):
                     return WorkflowStatus.TERMINAL
                 return WorkflowStatus.SUCCEEDED
 
+        # Nothing is running and what is unfinished waits for a signal or an
+        # operator (SUSPENDED / PAUSED), possibly for longer than any retry
+        # budget. The waiting stage's own completion queues CompleteWorkflow
+        # again, so neither poll nor give up on it here.
+        waiting = {WorkflowStatus.SUSPENDED, WorkflowStatus.PAUSED}
+        if all(s in CONTINUABLE_STATUSES or s in waiting for s in statuses):
+            return None
+
         # Still running - check retry count before re-queuing
         retry_count = getattr(message, "retry_count", 0) or 0
         max_retries = self.handler_config.max_stage_wait_retries
